@@ -52,6 +52,25 @@ Theorem C09_tasks_balanced : forall f fd b c r,
 Proof. exact (tasks_balanced_sound generated_prog generated_ok). Qed.
 Print Assumptions C09_tasks_balanced.
 
+(* close_idempotent: a thread that holds nothing calls Conn.Close any number of times -- no lock
+   violation ever, and whenever the sequence completes, c.mu, the sender lock and all task
+   obligations are free again.  (RAbort = a Go panic inside: excluded by C08's theorems, not
+   here.  That each Close RETURNS is a liveness statement: see docs/C09.md section 7 for the
+   environment assumptions it needs; it is observed by the harness for every enumerated fault.) *)
+Theorem C09_close_idempotent : forall n r,
+  exec generated_prog (calls (repeat close_id n)) empty_state r ->
+  r = RNorm empty_state \/ r = RAbort.
+Proof. exact close_idempotent_lock. Qed.
+Print Assumptions C09_close_idempotent.
+
+(* the same for any sequence of exported methods / handlers callable with nothing held *)
+Theorem C09_api_sequences_hold_nothing : forall l r,
+  forallb (api_callable generated_prog) l = true ->
+  exec generated_prog (calls l) empty_state r ->
+  r = RNorm empty_state \/ r = RAbort.
+Proof. exact api_sequences_lock. Qed.
+Print Assumptions C09_api_sequences_hold_nothing.
+
 (* the checker itself, for all programs *)
 Theorem C09_checker_sound : forall P, check_prog P = true ->
   forall f fd b c r,
